@@ -4,9 +4,15 @@
   well-formed grouping of *any* order of the blocks implements exactly that specification, hence two orders whose
   groupings are well-formed dispatch identically. (That the search produces a well-formed grouping for every order is
   C11's subject and is re-validated on the real grouping for every generated order.)
+  Second part (`C05_flat_*`, proofs in `Lemmas/FlatOrder.lean`): for invocations without nested headers the SEARCH
+  itself is order-free — `parseGroups` accepts a permutation of the blocks iff it accepts the original, with the same
+  kind of rejection, and the families it forms are the same up to the order of members, keys and `?Sized` parameters
+  and the spelling of the keys.
 -/
 import DisjointImpls.Lemmas.Refine
 import DisjointImpls.Lemmas.GroupLemmas
+import DisjointImpls.Lemmas.FlatOrder
+import DisjointImpls.Props.C03
 namespace DI
 
 /-- "some block applies" is invariant under permuting the blocks -/
@@ -75,5 +81,264 @@ example :
       .node "None" [] [], .node "S2" [] [], .node "List" [] []], []⟩
     ([b1, b2].map (·.item)).Nodup ∧ (mkBuckets [b1, b2]).map (·.1) = [groupIdOf b1.item, groupIdOf b2.item] ∧
     (mkBuckets [b2, b1]).map (·.1) = [groupIdOf b2.item, groupIdOf b1.item] := by decide
+
+/-! ## The search itself is order-free, for invocations without nested headers
+
+  Side conditions (both executable, evaluated per test case):
+  * `noNesting items` (Props/C11): no header generalises a different one, so every bucket is searched on its own;
+  * `flatWF items` (Lemmas/FlatOrder): every header matches itself with identity bindings only (`selfIdentity`), and
+    every trait path in the bounds is one `TraitBound::eq` can compare (`wfPath`; outside of it the real code hits
+    `unreachable!()`, `C12_panics_outside`) — then `keyEq` is an equivalence;
+  Pairwise different block texts are NOT needed (a textually identical block replaces the earlier one; the buckets of a
+  permutation are still permutations of each other, `mkBuckets_perm'`).
+  The side conditions are themselves invariant under permuting the blocks (`C05_flat_hyps_order_free`).
+  `flatWF0` is the weaker form of `flatWF` that also admits headers on which the matcher itself panics or answers no
+  (`selfWeak`: *if* the header matches itself, then with identity bindings only); it suffices for everything except
+  the clause "the kind of rejection is preserved" (`C05_flat_rejection_kind_counterexample`). -/
+
+/-- the side conditions of the flat order theorems hold for every permutation of the blocks if they hold for one -/
+theorem C05_flat_hyps_order_free (items items' : List T) (hp : items.Perm items') (hn : noNesting items = true)
+    (hwf : flatWF items = true) : noNesting items' = true ∧ flatWF items' = true := by
+  obtain ⟨h1, h2⟩ := flat_hyps_perm hp (by simpa [noNesting] using hn) hwf
+  exact ⟨by simpa [noNesting] using h1, h2⟩
+
+/-- **Acceptance is order-free.** For an invocation without nested headers, `parseGroups` accepts a permutation of
+    the blocks iff it accepts the original; it reports "Unable to form impl groups" (for some header) for the one iff
+    it does for the other; and it panics for neither. -/
+theorem C05_flat_acceptance_order_free (items items' : List T) (hp : items.Perm items') (hn : noNesting items = true)
+    (hwf : flatWF items = true) :
+    ((∃ g, parseGroups items = .ok g) ↔ (∃ g', parseGroups items' = .ok g')) ∧
+    ((∃ id, parseGroups items = .unableToForm id) ↔ (∃ id', parseGroups items' = .unableToForm id')) ∧
+    (∀ e, parseGroups items ≠ .panic e) ∧ (∀ e, parseGroups items' ≠ .panic e) :=
+  flat_acceptance_perm hp (by simpa [noNesting] using hn) hwf
+
+/-- the part of `C05_flat_acceptance_order_free` that holds under the weaker side condition `flatWF0` (headers on
+    which the matcher panics are allowed): acceptance itself is order-free -/
+theorem C05_flat_acceptance_order_free_partial (items items' : List T) (hp : items.Perm items')
+    (hn : noNesting items = true) (hwf : flatWF0 items = true) :
+    (∃ g, parseGroups items = .ok g) ↔ (∃ g', parseGroups items' = .ok g') :=
+  flat_acceptance_perm0 hp (by simpa [noNesting] using hn) hwf
+
+/-- what acceptance is, independently of any order: no bucket makes the search panic (`bucketPanics`: two or more
+    blocks under a header that does not match itself) and every bucket's single candidate passes the candidate
+    filter (`accOK`: after pruning the keys without a binding a key is left and no member's row generalises
+    another's). Under the full side condition `flatWF` no bucket panics and the result is never `.panic`. -/
+theorem C05_flat_acceptance_characterised (items : List T) (hn : noNesting items = true)
+    (hwf : flatWF0 items = true) :
+    ((∃ g, parseGroups items = .ok g) ↔
+      ∀ bk ∈ mkBuckets (items.map mkBlk), bucketPanics bk = false ∧ accOK bk.2 = true) ∧
+    (flatWF items = true → (∀ bk ∈ mkBuckets (items.map mkBlk), bucketPanics bk = false) ∧
+      ∀ e, parseGroups items ≠ .panic e) :=
+  ⟨parseGroups_flat_ok_iff items (by simpa [noNesting] using hn) hwf,
+   fun h => ⟨buckets_no_panic items h, (parseGroups_flat_kinds items (by simpa [noNesting] using hn) h).2.2⟩⟩
+
+/-- the flat search yields exactly one candidate per bucket (so `chooseCandidate` has no choice to make); its keys
+    and rows are `famB` — the blocks joined one after the other — and its `?Sized` parameters are `famU` -/
+theorem C05_flat_single_candidate (c : T) (hself : selfIdentity c = true) (b1 : Blk) (rest : List Blk) :
+    flatSearch c (b1 :: rest) [] = .ok [[(c, ⟨famB b1 rest, famU b1 rest⟩, b1 :: rest)]] :=
+  flatSearch_root hself b1 rest
+
+/-- … and `famB` is characterised order-free: the keys (of the last block) that every block has, each with the
+    members' own rows (`rowD b k`: the block's bounds folded per key, looked up up to `keyEq`) -/
+theorem C05_flat_candidate_spec (b1 : Blk) (rest : List Blk) (hw : ∀ x ∈ b1 :: rest, wfBlk x = true) :
+    famB b1 rest = famSpec (b1 :: rest) (lastB b1 rest) :=
+  famB_spec b1 rest hw
+
+/-- the candidate filter on one bucket does not depend on the order of its blocks -/
+theorem C05_flat_bucket_filter_order_free (blks blks' : List Blk) (hp : blks.Perm blks')
+    (hw : ∀ b ∈ blks, wfBlk b = true) (hnd : blks.Nodup) : accOK blks = accOK blks' :=
+  accOK_perm hp hw hnd
+
+/-- **The families are order-free.** If an invocation without nested headers and a permutation of it are both
+    accepted (by `C05_flat_acceptance_order_free`: if one of them is), the two groupings have the same headers (each
+    once), and the family `e'` with the header of a family `e`
+    * has the same members up to order;
+    * has the same keys up to spelling and order: the normal forms `nk k = (bounded type, dispatch key of the trait
+      path)` — what `keyEq` compares, associated-type bindings ignored — are permutations of each other;
+    * for every key of `e` has a `keyEq` key under which every member has the same row of bindings: the member/row
+      pairs are a permutation of each other (so `rowLookup` gives the same binding, or none, for every member, key
+      and associated-type identifier);
+    * has the same `?Sized` parameters, as a set.
+    Applied to `hp.symm` it gives the converse direction. The weak side condition `flatWF0` suffices
+    (`flatWF0_of_flatWF`). What does depend on the order: the order of the members,
+    of the keys and of the `?Sized` parameters, and the spelling of a key (that of the last member). -/
+theorem C05_flat_families_order_free (items items' : List T) (g g' : Groups) (hp : items.Perm items')
+    (hn : noNesting items = true) (hwf : flatWF0 items = true)
+    (h : parseGroups items = .ok g) (h' : parseGroups items' = .ok g') :
+    (g.map (·.1)).Perm (g'.map (·.1)) ∧ (g.map (·.1)).Nodup ∧
+    ∀ e ∈ g, ∃ e' ∈ g', e'.1 = e.1 ∧ e.2.2.Perm e'.2.2 ∧
+      (e.2.1.bounds.map (fun kr => nk kr.1)).Perm (e'.2.1.bounds.map (fun kr => nk kr.1)) ∧
+      (∀ kr ∈ e.2.1.bounds, ∃ kr' ∈ e'.2.1.bounds, keyEq kr.1 kr'.1 = true ∧ (e.2.2.zip kr.2).Perm (e'.2.2.zip kr'.2)) ∧
+      ∀ p, p ∈ e.2.1.unsized ↔ p ∈ e'.2.1.unsized :=
+  flat_families_perm hp (by simpa [noNesting] using hn) hwf h h'
+
+/-- an accepted family, without reference to any order of the search: its members are exactly the input blocks with
+    its header, each once; its keys are exactly the keys of the last member that every member has (`hasKey`) and for
+    which some member has a binding; the row of a member under a key is the member's own row -/
+theorem C05_flat_family_characterised (items : List T) (g : Groups) (hn : noNesting items = true)
+    (hwf : flatWF0 items = true) (h : parseGroups items = .ok g) :
+    ∀ e ∈ g, e.2.2.Nodup ∧ (∀ b, b ∈ e.2.2 ↔ b ∈ items.map mkBlk ∧ groupIdOf b.item = e.1) ∧
+      ∃ l, e.2.2.getLast? = some l ∧
+        ∀ kr, kr ∈ e.2.1.bounds ↔
+          (∃ r, (kr.1, r) ∈ otherFold l) ∧ hasKey e.2.2 kr.1 = true ∧ kr.2 = e.2.2.map (fun b => rowD b kr.1) ∧
+            ∃ b ∈ e.2.2, rowD b kr.1 ≠ [] :=
+  flat_family_char h (by simpa [noNesting] using hn) hwf
+
+/-- … and for pairwise different block texts the members come in input order -/
+theorem C05_flat_family_members (items : List T) (g : Groups) (hn : noNesting items = true)
+    (hwf : flatWF0 items = true) (hnd : ((items.map mkBlk).map (·.item)).Nodup) (h : parseGroups items = .ok g) :
+    ∀ e ∈ g, e.2.2 = (items.map mkBlk).filter (fun b => groupIdOf b.item == e.1) :=
+  flat_family_members_filter h (by simpa [noNesting] using hn) hwf hnd
+
+/-- the side conditions as one executable check -/
+def flatOrderPre (items : List T) : Bool := noNesting items && flatWF items
+
+/-- acceptance is order-free, under the single executable precondition `flatOrderPre items` -/
+theorem C05_flat_order_free_exec (items items' : List T) (hp : items.Perm items') (hpre : flatOrderPre items = true) :
+    flatOrderPre items' = true ∧
+    ((∃ g, parseGroups items = .ok g) ↔ (∃ g', parseGroups items' = .ok g')) ∧
+    ((∃ id, parseGroups items = .unableToForm id) ↔ (∃ id', parseGroups items' = .unableToForm id')) ∧
+    (∀ e, parseGroups items ≠ .panic e) ∧ (∀ e, parseGroups items' ≠ .panic e) := by
+  simp only [flatOrderPre, Bool.and_eq_true] at hpre ⊢
+  obtain ⟨hn, hwf⟩ := hpre
+  exact ⟨C05_flat_hyps_order_free items items' hp hn hwf, C05_flat_acceptance_order_free items items' hp hn hwf⟩
+
+namespace Ex11
+/-- `impl<T: bounds> Kita for T {}` -/
+def blockBounds (bs : List T) : T := implOf [tyParam "T" bs] tT
+/-- three blocks with the same header and different bindings; the second one lists its bounds in the other order and
+    the third one lacks the `Other` bound, so the family keeps the single key `T: Dispatch` -/
+def order3 : List T :=
+  [blockBounds [traitBound (dispatch "GroupA"), traitBound (otherTr "X")],
+   blockBounds [traitBound (otherTr "Y"), traitBound (dispatch "GroupB")],
+   blockBounds [traitBound (dispatch "GroupC")]]
+def order3' : List T :=
+  [blockBounds [traitBound (dispatch "GroupC")],
+   blockBounds [traitBound (dispatch "GroupA"), traitBound (otherTr "X")],
+   blockBounds [traitBound (otherTr "Y"), traitBound (dispatch "GroupB")]]
+end Ex11
+
+section FlatNonVacuity
+open Ex11
+set_option maxRecDepth 1000000
+
+/-- non-vacuity: the three blocks in two orders satisfy every hypothesis, and both orders are accepted -/
+theorem C05_flat_example_hyps :
+    order3.Perm order3' ∧ noNesting order3 = true ∧ flatWF order3 = true := by
+  refine ⟨?_, by with_unfolding_all decide, by with_unfolding_all decide⟩
+  exact (List.perm_append_comm (l₁ := [blockBounds [traitBound (dispatch "GroupA"), traitBound (otherTr "X")],
+    blockBounds [traitBound (otherTr "Y"), traitBound (dispatch "GroupB")]])
+    (l₂ := [blockBounds [traitBound (dispatch "GroupC")]]))
+
+theorem C05_flat_example_accepted :
+    ∃ gs, parseGroups order3 = .ok gs ∧
+      (gs.map (fun (e : T × ABG × List Blk) => (e.2.2.length, e.2.1.bounds.length, e.2.1.payloads.length)) == [(3, 1, 3)]) = true :=
+  ParseResult.ok_of_check (f := fun gs => gs.map (fun (e : T × ABG × List Blk) =>
+    (e.2.2.length, e.2.1.bounds.length, e.2.1.payloads.length)) == [(3, 1, 3)]) (by with_unfolding_all decide)
+
+example : flatOrderPre order3 = true := by with_unfolding_all decide
+
+/-- the theorem (not a computation) yields the acceptance of the other order, and the correspondence of the families -/
+example : ∃ gs gs', parseGroups order3 = .ok gs ∧ parseGroups order3' = .ok gs' ∧
+    (gs.map (·.1)).Perm (gs'.map (·.1)) := by
+  obtain ⟨hp, hn, hwf⟩ := C05_flat_example_hyps
+  obtain ⟨gs, hgs, _⟩ := C05_flat_example_accepted
+  obtain ⟨gs', hgs'⟩ := (C05_flat_acceptance_order_free order3 order3' hp hn hwf).1.1 ⟨gs, hgs⟩
+  exact ⟨gs, gs', hgs, hgs', (C05_flat_families_order_free order3 order3' gs gs' hp hn (flatWF0_of_flatWF hwf) hgs hgs').1⟩
+
+/-- a rejected invocation (two blocks with the same binding: rows not distinguishable) is rejected in both orders,
+    with the same kind of error -/
+example :
+    let items := [blockBounds [traitBound (dispatch "GroupA"), traitBound (otherTr "X")],
+      blockBounds [traitBound (otherTr "Y"), traitBound (dispatch "GroupA")], blockBounds [traitBound (dispatch "GroupC")]]
+    (noNesting items = true ∧ flatWF items = true) ∧
+    (∃ id, parseGroups items = .unableToForm id) ∧ (∃ id, parseGroups items.reverse = .unableToForm id) := by
+  intro items
+  have hh : noNesting items = true ∧ flatWF items = true :=
+    ⟨by with_unfolding_all decide, by with_unfolding_all decide⟩
+  have h1 : ∃ id, parseGroups items = .unableToForm id := by
+    have : (match parseGroups items with | .unableToForm _ => true | _ => false) = true := by with_unfolding_all decide
+    revert this
+    cases parseGroups items with
+    | unableToForm id => exact fun _ => ⟨id, rfl⟩
+    | ok _ => intro h; cases h
+    | panic _ => intro h; cases h
+  exact ⟨hh, h1, (C05_flat_acceptance_order_free items items.reverse (List.reverse_perm items).symm hh.1 hh.2).2.1.1 h1⟩
+
+/-- two buckets (`Vec<T>` and `Box<T>`), blocks interleaved, and the reversed input: both accepted; the families come
+    out in a different order (`Box<T>` first) with their members in a different order, and
+    `C05_flat_families_order_free` relates them -/
+example :
+    let items := [blockSelf "GroupA" (vecOf tT), blockSelf "GroupA" (boxOf tT), blockSelf "GroupB" (vecOf tT),
+      blockSelf "GroupB" (boxOf tT)]
+    ∃ gs gs', parseGroups items = .ok gs ∧ parseGroups items.reverse = .ok gs' ∧
+      gs.map (·.1) ≠ gs'.map (·.1) ∧ (gs.map (·.1)).Perm (gs'.map (·.1)) ∧
+      ∀ e ∈ gs, ∃ e' ∈ gs', e'.1 = e.1 ∧ e.2.2.Perm e'.2.2 := by
+  intro items
+  have hn : noNesting items = true := by with_unfolding_all decide
+  have hwf : flatWF items = true := by with_unfolding_all decide
+  have hp : items.Perm items.reverse := (List.reverse_perm items).symm
+  obtain ⟨gs, hgs, hids⟩ := ParseResult.ok_of_check (r := parseGroups items)
+    (f := fun gs => gs.map (·.1) == [groupIdOf (mkBlk (blockSelf "GroupA" (vecOf tT))).item,
+      groupIdOf (mkBlk (blockSelf "GroupA" (boxOf tT))).item]) (by with_unfolding_all decide)
+  obtain ⟨gs', hgs', hids'⟩ := ParseResult.ok_of_check (r := parseGroups items.reverse)
+    (f := fun gs => gs.map (·.1) == [groupIdOf (mkBlk (blockSelf "GroupA" (boxOf tT))).item,
+      groupIdOf (mkBlk (blockSelf "GroupA" (vecOf tT))).item]) (by with_unfolding_all decide)
+  obtain ⟨h1, _, h3⟩ := C05_flat_families_order_free items items.reverse gs gs' hp hn (flatWF0_of_flatWF hwf) hgs hgs'
+  refine ⟨gs, gs', hgs, hgs', ?_, h1, fun e he => ?_⟩
+  · rw [eq_of_beq hids, eq_of_beq hids']
+    with_unfolding_all decide
+  · obtain ⟨e', he', a, b, _⟩ := h3 e he
+    exact ⟨e', he', a, b⟩
+
+def ParseResult.isPanic : ParseResult → Bool
+  | .panic _ => true
+  | _ => false
+def ParseResult.isUnable : ParseResult → Bool
+  | .unableToForm _ => true
+  | _ => false
+
+/-- why `selfIdentity` is a side condition of the clause "the kind of rejection is preserved": on a header on which the
+    matcher itself panics (`unimplemented!()` arms of `is_superset`, here a synthetic header containing a
+    `Pat::Struct` node) the search of a bucket with two blocks panics, a bucket with indistinguishable rows is
+    rejected with "Unable to form impl groups", and which of the two failures is reported depends on which bucket
+    comes first. (Acceptance itself is the same in both orders: both are rejected.) -/
+theorem C05_flat_rejection_kind_counterexample :
+    let weird : T := .node "Type::Slice" [] [.node "Pat::Struct" [] []]
+    let items := [blockSelf "GroupA" weird, blockSelf "GroupB" weird, blockSelf "GroupA" (vecOf tT),
+      blockSelf2 "GroupA" (vecOf tT)]
+    noNesting items = true ∧ flatWF items = false ∧ flatWF0 items = true ∧
+      (parseGroups items).isPanic = true ∧ (parseGroups items.reverse).isUnable = true := by
+  with_unfolding_all decide
+
+/-- non-vacuity of the `flatWF0` theorems outside `flatWF`: a lone block under a header on which the matcher panics
+    (its bucket is never compared with itself) next to an ordinary family — accepted, hence accepted in every order -/
+example :
+    let weird : T := .node "Type::Slice" [] [.node "Pat::Struct" [] []]
+    let items := [blockSelf "GroupA" weird, blockSelf "GroupA" (vecOf tT), blockSelf "GroupB" (vecOf tT)]
+    flatWF items = false ∧ ∃ gs', parseGroups items.reverse = .ok gs' := by
+  intro weird items
+  have hn : noNesting items = true := by with_unfolding_all decide
+  have hwf : flatWF0 items = true := by with_unfolding_all decide
+  obtain ⟨gs, hgs, _⟩ := ParseResult.ok_of_check (r := parseGroups items) (f := fun gs => gs.length == 2)
+    (by with_unfolding_all decide)
+  exact ⟨by with_unfolding_all decide,
+    (C05_flat_acceptance_order_free_partial items items.reverse (List.reverse_perm items).symm hn hwf).1 ⟨gs, hgs⟩⟩
+
+/-- pairwise different block texts are not needed: with a textually repeated block (which replaces the earlier copy)
+    the theorem still transfers acceptance to another order -/
+example :
+    let items := [blockFor "GroupA", blockFor "GroupB", blockFor "GroupA"]
+    let items' := [blockFor "GroupA", blockFor "GroupA", blockFor "GroupB"]
+    ¬ ((items.map mkBlk).map (·.item)).Nodup ∧ ∃ gs', parseGroups items' = .ok gs' := by
+  intro items items'
+  have hn : noNesting items = true := by with_unfolding_all decide
+  have hwf : flatWF items = true := by with_unfolding_all decide
+  have hp : items.Perm items' := List.Perm.cons _ (List.Perm.swap _ _ [])
+  obtain ⟨gs, hgs, _⟩ := ParseResult.ok_of_check (r := parseGroups items) (f := fun gs => gs.length == 1)
+    (by with_unfolding_all decide)
+  exact ⟨by with_unfolding_all decide, (C05_flat_acceptance_order_free items items' hp hn hwf).1.1 ⟨gs, hgs⟩⟩
+
+end FlatNonVacuity
 
 end DI
